@@ -251,7 +251,7 @@ fn oracle(case: &[u8], obs: &mut Obs) -> Result<(), String> {
         st.data.pop();
     }
     f.add_sec(b".strs", m::SHT_STRTAB, st.data);
-    let nalign = *c.pick(&[4u64, 8, 1, 2]);
+    let nalign = *c.pick(&[4u64, 8, 1, 2, 4, 3, 5, 6, 12, 16]);
     let mut w = m::W::new(enc);
     for _ in 0..1 + c.below(3) {
         let (nl, dl) = (c.below(9) as usize, c.below(14) as usize);
